@@ -403,13 +403,13 @@ class Term(ItemSequenceT[T]):
         """str(self)"""
         elems_pos_exp = []
         elems_neg_exp = []
-        exp_map = [1, -1]
         for (elem, exp) in self:
             absexp = abs(exp)
             elem_str = str(elem)
-            # if string representation of elem contains div-sign, split it:
+            # if string representation of elem contains div-sign, split it
+            # (everything behind the first div-sign is a divisor):
             for i, s in enumerate(elem_str.split(_DIV_SIGN)):
-                e = exp * exp_map[i]
+                e = exp if i == 0 else -exp
                 if e > 0:
                     elems_pos_exp.append('%s%s' % (s, _POWER_CHARS[absexp]))
                 else:
